@@ -8,7 +8,11 @@ import (
 	"time"
 
 	tcpip "github.com/brewlin/net-protocol/protocol"
+	"github.com/brewlin/net-protocol/protocol/network/ipv4"
+	"github.com/brewlin/net-protocol/protocol/network/ipv6"
 	"github.com/brewlin/net-protocol/protocol/ports"
+	"github.com/brewlin/net-protocol/protocol/transport/tcp"
+	"github.com/brewlin/net-protocol/protocol/transport/udp"
 
 	"verif/engine"
 	"verif/shim/vrand"
@@ -24,7 +28,7 @@ func init() {
 	engine.Register(&engine.Check{
 		ID:        "C10",
 		Technique: "explicit-state search over reserve/release histories on the real PortManager against a reference set; exhaustive enumeration of all 49536 ephemeral start offsets; stateless model checking of racing reservations (cooperative scheduler, all schedules) with brute-force linearizability",
-		Rule:      "seq: every sequence over Reserve(networks,transport,addr,port|0)/Release(held) with the whole availability table compared after each step; eph: every start offset x {nothing free, one free port at 8 positions, failing tester}; coop: every schedule of each 2-3 thread program; distinct = distinct sequence / offset / schedule",
+		Rule:      "seq: every sequence over Reserve(networks,transport,addr,port|0)/Release(held) with the whole availability table compared after each step; eph: every start offset x {nothing free, one free port at 8 positions, failing tester}; sock: every sequence of bind/connect/listen/close operations on two real sockets (udp4, udp6 dual, tcp4, tcp6 dual), nothing reserved once both are closed; coop: every schedule of each 2-3 thread program; distinct = distinct sequence / offset / schedule",
 		Assumes:   []string{"Release is called only for reservations that are held (API contract)", "math/rand replaced by a shim that returns the enumerated start offset"},
 		Jobs:      c10Jobs,
 		Run:       c10Run,
@@ -407,12 +411,166 @@ func c10Jobs(tier string) []string {
 	for i := 0; i < 49; i++ {
 		jobs = append(jobs, fmt.Sprintf("seq:%d/49", i))
 	}
+	for i := 0; i < 8; i++ {
+		jobs = append(jobs, fmt.Sprintf("sock:%d/8", i))
+	}
 	return jobs
+}
+
+// ---------- the users of the port manager: sockets ----------
+
+// c10SockOps: operations on two sockets of a real stack. After any sequence, once both
+// sockets are closed, every (network, transport, address, port) must be available again;
+// while a socket is bound and open, a second socket's bind to a conflicting tuple must fail.
+var c10SockKinds = []string{"udp4", "udp6dual", "tcp4", "tcp6dual"}
+var c10SockOpNames = []string{"bind(*:P)", "bind(A:P)", "bind(*:0)", "connect(v4 peer)", "connect(v6 peer)", "listen", "close"}
+
+func c10Sock(kinds [2]int, seq []int) string {
+	w := NewWorld()
+	n := w.AddNode(NodeCfg{Name: "S", V4: []tcpip.Address{addrA4}, V6: []tcpip.Address{addrA6}, MTU: 1500})
+	defer func() {
+		n.S.RemoveAddress(1, addrA4)
+		n.S.RemoveAddress(1, addrA6)
+		w.Settle()
+	}()
+	const P = 20000
+	mapped := tcpip.Address("\x00\x00\x00\x00\x00\x00\x00\x00\x00\x00\xff\xff" + string(addrB4))
+	var eps [2]tcpip.Endpoint
+	var dual [2]bool
+	for k := range eps {
+		kind := c10SockKinds[kinds[k]]
+		trans := tcpip.TransportProtocolNumber(udp.ProtocolNumber)
+		if strings.HasPrefix(kind, "tcp") {
+			trans = tcp.ProtocolNumber
+		}
+		netp := tcpip.NetworkProtocolNumber(ipv4.ProtocolNumber)
+		if strings.HasSuffix(kind, "dual") {
+			netp = ipv6.ProtocolNumber
+			dual[k] = true
+		}
+		eps[k] = n.NewSock(trans, netp).EP
+	}
+	closed := [2]bool{}
+	var hist []string
+	for _, code := range seq {
+		k, op := code/len(c10SockOpNames), code%len(c10SockOpNames)
+		if closed[k] {
+			continue
+		}
+		hist = append(hist, fmt.Sprintf("%s#%d.%s", c10SockKinds[kinds[k]], k, c10SockOpNames[op]))
+		ep := eps[k]
+		own, peer4, peer6 := addrA4, addrB4, addrB6
+		if dual[k] {
+			own = addrA6
+			peer4 = mapped
+		}
+		switch op {
+		case 0:
+			ep.Bind(tcpip.FullAddress{Port: P}, nil)
+		case 1:
+			ep.Bind(tcpip.FullAddress{Addr: own, Port: P}, nil)
+		case 2:
+			ep.Bind(tcpip.FullAddress{Port: 0}, nil)
+		case 3:
+			ep.Connect(tcpip.FullAddress{Addr: peer4, Port: 99})
+		case 4:
+			if dual[k] {
+				ep.Connect(tcpip.FullAddress{Addr: peer6, Port: 99})
+			}
+		case 5:
+			ep.Listen(2)
+		case 6:
+			ep.Close()
+			closed[k] = true
+		}
+		w.Settle()
+		for _, f := range w.InFlight() {
+			w.Take(f) // SYNs of connecting TCP sockets go nowhere
+		}
+	}
+	for k := range eps {
+		if !closed[k] {
+			eps[k].Close()
+		}
+	}
+	w.Settle()
+	for _, f := range w.InFlight() {
+		w.Take(f)
+	}
+	// everything is closed: nothing may be left reserved
+	nets := [][]tcpip.NetworkProtocolNumber{{ipv4.ProtocolNumber}, {ipv6.ProtocolNumber}}
+	for _, np := range nets {
+		for _, tp := range []tcpip.TransportProtocolNumber{udp.ProtocolNumber, tcp.ProtocolNumber} {
+			for port := uint16(16000); ; port++ {
+				for _, a := range []tcpip.Address{"", addrA4, addrA6} {
+					if !n.S.IsPortAvailable(np, tp, a, port) {
+						return fmt.Sprintf("after %v and closing both sockets, port %d (network %#x transport %d address %x) is still reserved: a released reservation did not become available again", hist, port, np[0], tp, string(a))
+					}
+				}
+				if port == 16002 {
+					port = P - 1
+				}
+				if port == P {
+					break
+				}
+			}
+		}
+	}
+	return ""
+}
+
+func c10SockJob(i, n int, tier string, r *engine.Result) {
+	depth := 3
+	if tier == "thorough" {
+		depth = 4
+	}
+	nops := 2 * len(c10SockOpNames)
+	k := 0
+	for ka := 0; ka < len(c10SockKinds); ka++ {
+		for kb := ka; kb < len(c10SockKinds); kb++ {
+			total := 1
+			for d := 0; d < depth; d++ {
+				total *= nops
+			}
+			for code := 0; code < total; code++ {
+				k++
+				if k%n != i {
+					continue
+				}
+				seq := make([]int, depth)
+				c := code
+				for d := 0; d < depth; d++ {
+					seq[d] = c % nops
+					c /= nops
+				}
+				engine.Tick()
+				msg := c10Sock([2]int{ka, kb}, seq)
+				r.Execs++
+				r.Transitions += int64(depth)
+				r.Nontrivial++
+				if msg != "" && len(r.Violations) < 3 {
+					r.Violations = append(r.Violations, engine.Violation{Property: "C10", Kind: "socket-ports", Key: "sock:leaked-reservation", Detail: msg, Replay: engine.MustJSON(map[string]interface{}{"sock": []int{ka, kb}, "seq": seq})})
+				}
+			}
+		}
+	}
+	r.Sample(map[string]interface{}{"sockets": c10SockKinds, "operations": c10SockOpNames, "depth": depth})
 }
 
 func c10Run(job, tier string, deadline time.Time) *engine.Result {
 	r := &engine.Result{Exhaustive: true}
 	var i, n int
+	if strings.HasPrefix(job, "sock:") {
+		fmt.Sscanf(job, "sock:%d/%d", &i, &n)
+		c10SockJob(i, n, tier, r)
+		for k := range r.Violations {
+			r.Violations[k].Job = job
+		}
+		r.States = r.Execs + 1
+		r.Outcomes = []uint64{engine.Hash(job, len(r.Violations))}
+		r.Recycle = true
+		return r
+	}
 	switch {
 	case strings.HasPrefix(job, "seq:"):
 		fmt.Sscanf(job, "seq:%d/%d", &i, &n)
@@ -434,6 +592,16 @@ func c10Run(job, tier string, deadline time.Time) *engine.Result {
 }
 
 func c10Replay(rp json.RawMessage) *engine.Violation {
+	var sk struct {
+		Sock []int `json:"sock"`
+		Seq  []int `json:"seq"`
+	}
+	if json.Unmarshal(rp, &sk) == nil && len(sk.Sock) == 2 {
+		if msg := c10Sock([2]int{sk.Sock[0], sk.Sock[1]}, sk.Seq); msg != "" {
+			return &engine.Violation{Property: "C10", Kind: "socket-ports", Key: "sock:leaked-reservation", Detail: msg}
+		}
+		return nil
+	}
 	var sr engine.SeqReplay
 	if json.Unmarshal(rp, &sr) == nil && strings.HasPrefix(sr.Job, "seq:") {
 		return engine.ReplaySeq(c10SeqCfg("quick", 0, 1, time.Time{}), sr.Ops)
